@@ -694,8 +694,8 @@ pub fn c03_seq_families(tier: &str) -> Vec<SeqSpec> {
     // a hot key: 130 versions of one key above a live snapshot (default blocks: the run of versions
     // crosses block and filter-range boundaries inside one user key; one-entry blocks: the
     // snapshot's version is 130 blocks behind the newest one)
-    fams.push(hot_key_family("C03-hot-key/D", "D", if t { 4 } else { 2 }, ck));
-    fams.push(hot_key_family("C03-hot-key/T300", "T300", if t { 4 } else { 2 }, ck));
+    fams.insert(0, hot_key_family("C03-hot-key/D", "D", if t { 4 } else { 2 }, ck));
+    fams.insert(1, hot_key_family("C03-hot-key/T300", "T300", if t { 4 } else { 2 }, ck));
     // up to four snapshots alive at once (released in any order)
     fams.push(
         spec(
@@ -1061,8 +1061,8 @@ pub fn c04(tier: &str) -> ! {
         fams.push(mk("C04/T300c/d3xL3", "T300c", a1(), 3, 3, true));
         // a hot key: 130 versions of the middle key next to each other (memtable; with the
         // snapshot of the setup still alive also in the tables), other keys around it
-        fams.push(hot_key_family("C04-hot-key/M2b", "M2b", 2, ck).with_extra(cursor_extra).with_param(3));
-        fams.push(hot_key_family("C04-hot-key/T300", "T300", 2, ck).with_extra(cursor_extra).with_param(3));
+        fams.insert(0, hot_key_family("C04-hot-key/M2b", "M2b", 2, ck).with_extra(cursor_extra).with_param(3));
+        fams.insert(1, hot_key_family("C04-hot-key/T300", "T300", 2, ck).with_extra(cursor_extra).with_param(3));
     }
     run_families(&mut rep, fams, budget(tier), |c| c.starts_with("C04.") || c == "iter.err");
     finish_common(&mut rep);
@@ -1077,6 +1077,16 @@ pub fn c04(tier: &str) -> ! {
 pub fn hot_key_family(name: &str, cfg: &str, depth: usize, ck: Checks) -> SeqSpec {
     let alphabet = vec![Op::PutMany(1, 130), Op::Put(2, 0), Op::Del(1), Op::Flush, Op::Compact(None, None), Op::Release(0), Op::Put(0, 0)];
     spec(name, &[cfg], k3s(), alphabet, depth, ck).with_setup(vec![Op::Put(0, 0), Op::Put(1, 0), Op::Put(2, 0), Op::Snap, Op::PutMany(1, 130)])
+}
+
+/// C06, sequence part: a three-key batch, a snapshot, then 130 newer versions of the batch's middle
+/// key (a reader pinned before them has to step over all of them): reads and scans through the
+/// snapshot must keep showing the whole batch while the alphabet adds more versions, flushes and
+/// compacts.
+pub fn hot_batch_family(name: &str, cfg: &str, depth: usize) -> SeqSpec {
+    let ck = checks(true, false, true, false, false, false);
+    let alphabet = vec![Op::PutMany(1, 130), Op::Batch(vec![(0, true), (1, true), (2, true)]), Op::Del(1), Op::Flush, Op::Compact(None, None), Op::Snap];
+    spec(name, &[cfg], k3s(), alphabet, depth, ck).with_setup(vec![Op::Batch(vec![(0, true), (1, true), (2, true)]), Op::Snap, Op::PutMany(1, 130)])
 }
 
 /// Start from a non-initial state: two sessions that each wrote one key and were reopened without
